@@ -248,6 +248,14 @@ func activationBuffersRule(r *Run, rule string, pick func(fn *ssa.Function) bool
 			for _, ins := range b.Instrs {
 				switch x := ins.(type) {
 				case *ssa.Call:
+					// append(buffer, v): the buffer the values are collected in
+					if b, isB := x.Call.Value.(*ssa.Builtin); isB && b.Name() == "append" && len(x.Call.Args) == 2 {
+						if s := sharedBase(x.Call.Args[0], map[ssa.Value]bool{}, 0); s != "" {
+							nSites++
+							r.Bad(rule, name, "append to "+s, w.Pos(x.Pos()),
+								"values are collected in a buffer kept in "+s+": the evaluator is recursive, so another activation that runs before this one has handed its values on (a nested or a following loop, the same function called for an argument) reuses the storage and overwrites them")
+						}
+					}
 					for _, m := range []string{"Call", "CallSlice"} {
 						if _, args, ok := reflectValueCall(x, m); ok && len(args) == 1 {
 							nSites++
